@@ -31,6 +31,9 @@ CHECKS = {
  "C06": dict(engine="H", tech=H, ref="DESIGN.md §3 C06",
    text="Every history of clock readings relative to the generator's current millisecond (backwards, stalled, forward, far future; restart with the last id) up to length 5 quick / 7 thorough on the real HardNode from start states seeded at the step wrap; MonoNode under a virtual non-decreasing clock with stalled readings inside its spin loop after a 4094-call warm-up; UnixNanoID ts histories of length 7/9; each of the 12 layouts (node bits x node-at-lowest x epoch) in its own process.",
    note="clock seams: snowflake._HookNow via overlay hook, time.Now/Since in mono.go and nano.go redirected to zverif/vtime by the overlay; readings stay inside the timestamp width"),
+ "C07": dict(engine="I", tech=I, ref="DESIGN.md §3 C07",
+   text="Per layout (3 node widths x node-at-lowest x 3 epochs, one process each): ids from a boundary timestamp family (0,1,999..,2^k±1,max width, calendar boundaries ±1 ms for 2000-2300, every millisecond of windows at 8 anchor dates) x (node,step) corners plus ALL low-bit values for 1 (quick) / 3 (thorough) timestamps: IDFields/recombine, IDParse/IDParseEx, CnStyle/FromChStyle (24 chars, exact text), order of adjacent ids; TimeBetweenID/TimeIDRange for all ordered pairs of boundary instants with ids probed around both endpoints.",
+   note="structured family instead of all 2^63 ids; config globals set through the overlay hook VerifSetConfig"),
 }
 NA = {}
 
